@@ -1,3 +1,5 @@
+#define PSR(ri) (*(struct BuildEngineImpl_RuleScanRecord **)&(ri)->inProgressInfo.__u)
+#define PTI(ri) (*(struct BuildEngineImpl_TaskInfo **)&(ri)->inProgressInfo.__u)
 /* ghost state and model bodies of the engine units (after the translated struct definitions) */
 struct BuildEngineImpl *g_engine;
 unsigned __int128 g_reports, g_created;       /* wide counters: cannot wrap; only compared for equality */
